@@ -145,4 +145,35 @@ RemovesOf(ops) == {ops[i].p : i \in {j \in 1..Len(ops) : ops[j].k \in {"rmdir", 
 DirsMadeBy(ops) == {ops[i].p : i \in {j \in 1..Len(ops) : ops[j].k \in {"makedirs", "mkdir", "guardmk"}}}
 RECURSIVE Ancestors(_)
 Ancestors(p) == IF p = <<>> THEN {} ELSE {Parent(p)} \cup Ancestors(Parent(p))
+
+(* --- independence of a step (partial-order reduction used by TestCaseGen) -------------- *)
+(* paths an operation list mentions, with all their ancestors (makedirs and the parent      *)
+(* checks of mkdir/open touch the ancestors)                                               *)
+Mentions(ops)   == ({ops[i].p : i \in 1..Len(ops)} \cup {ops[i].q : i \in 1..Len(ops)}) \ {<<>>}
+MentionsUp(ops) == (Mentions(ops) \cup UNION {Ancestors(p) : p \in Mentions(ops)}) \ {<<>>}
+SharedPaths(prog, ws) ==
+  {p \in UNION {MentionsUp(prog[w]) : w \in ws} : Cardinality({w \in ws : p \in MentionsUp(prog[w])}) >= 2}
+NoRemovals(prog, ws) == \A w \in ws : RemovesOf(prog[w]) = {}
+
+(* paths whose state the next step of a worker reads / writes *)
+StepReads(l, op) ==
+  IF l.stk # <<>> THEN LET top == l.stk[Len(l.stk)] IN
+                       IF top.ph = "isdir" THEN {top.p} ELSE {Parent(top.p)}
+  ELSE CASE op.k \in {"makedirs", "mkdir", "creat", "put"} -> {Parent(op.p)}
+         [] op.k \in {"guardmk", "openr", "stat", "listdir"} -> {op.p}
+         [] op.k \in {"rename", "link"} -> {Parent(op.q)}
+         [] OTHER -> {}
+StepWrites(l, op) ==
+  IF l.stk # <<>> THEN LET top == l.stk[Len(l.stk)] IN
+                       IF top.ph \in {"mk", "gmk"} THEN {top.p} ELSE {}
+  ELSE CASE op.k \in {"mkdir", "creat", "put", "write", "unlink", "rmdir"} -> {op.p}
+         [] op.k \in {"rename", "link"} -> {op.p, op.q}
+         [] OTHER -> {}
+(* A step is independent of every step of the other workers of the group when it writes     *)
+(* only paths nobody else touches and reads only such paths or directories that already     *)
+(* exist and can never disappear (no worker of the group removes anything).                 *)
+IndepStep(fs, l, op, shared, norem) ==
+  /\ StepWrites(l, op) \cap shared = {}
+  /\ \A p \in StepReads(l, op) :
+        p = <<>> \/ p \notin shared \/ (norem /\ IsDir(fs, p) /\ ~(l.stk = <<>> /\ op.k = "listdir"))
 =============================================================================
